@@ -1221,7 +1221,7 @@ theorem regroup_filter {ρ : Type} (feats : List FInfo) (hnd : (feats.map (·.na
     · have hd : decide (g.kind = .cont) = false := by simpa using hc
       simp only [hd, Bool.false_eq_true, if_false, Bool.false_and, Bool.false_or, ih']
 
-theorem kidsVia_eff (mm : MMX) (o : Opts) (hmm : MMOK mm) (top : Bool) (n : SNode Str) (h : WFN mm n) (f : Str) :
+theorem kidsVia_eff {ρ : Type} {P : ρ → Prop} (mm : MMX) (o : Opts) (hmm : MMOK mm) (top : Bool) (n : SNode ρ) (h : WFG mm P n) (f : Str) :
     kidsVia (eff mm o top n) f = (kidsVia n f).map (eff mm o false) := by
   cases h with
   | mk via cls uuid slots kids hc hnd hs hk hk2 h1 =>
@@ -1242,8 +1242,8 @@ theorem kidsVia_eff (mm : MMX) (o : Opts) (hmm : MMOK mm) (top : Bool) (n : SNod
         exact ⟨fi, hmem, by simp [hkc, hname, hv']⟩
       simp [hnone]
 
-theorem follow_eff (mm : MMX) (o : Opts) (hmm : MMOK mm) (segs : List (Str × Option Nat)) :
-    ∀ (top : Bool) (n : SNode Str), WFN mm n → (follow (eff mm o top n) segs).isSome = (follow n segs).isSome := by
+theorem follow_eff {ρ : Type} {P : ρ → Prop} (mm : MMX) (o : Opts) (hmm : MMOK mm) (segs : List (Str × Option Nat)) :
+    ∀ (top : Bool) (n : SNode ρ), WFG mm P n → (follow (eff mm o top n) segs).isSome = (follow n segs).isSome := by
   induction segs with
   | nil => intro top n _; rfl
   | cons s t ih =>
@@ -1256,12 +1256,12 @@ theorem follow_eff (mm : MMX) (o : Opts) (hmm : MMOK mm) (segs : List (Str × Op
       simp only [Option.map_some]
       have hkm : k ∈ kidsVia n f := List.mem_of_getElem? hk
       have hkm' : k ∈ n.kids := (List.mem_filter.mp hkm).1
-      have hwf : WFN mm k := by
+      have hwf : WFG mm P k := by
         cases h with
         | mk _ _ _ _ kids _ _ _ hkids _ _ => exact hkids k hkm'
       exact ih false k hwf
 
-theorem nodeAt_eff (mm : MMX) (o : Opts) (hmm : MMOK mm) (roots : List (SNode Str)) (h : ∀ r ∈ roots, WFN mm r) (p : Path) :
+theorem nodeAt_eff {ρ : Type} {P : ρ → Prop} (mm : MMX) (o : Opts) (hmm : MMOK mm) (roots : List (SNode ρ)) (h : ∀ r ∈ roots, WFG mm P r) (p : Path) :
     (nodeAt (roots.map (eff mm o true)) p).isSome = (nodeAt roots p).isSome := by
   unfold nodeAt
   rw [List.getElem?_map]
